@@ -216,5 +216,5 @@ pub fn run(ctx: &mut Ctx) {
 
 pub fn replay(v: &Value) -> Vec<Failure> {
     let h: Vec<usize> = v["history"].as_array().map(|a| a.iter().filter_map(|l| LETTERS.iter().position(|x| Some(*x) == l.as_str())).collect()).unwrap_or_default();
-    check(&h, 40).1.into_iter().map(|(signature, detail)| Failure { signature, case: v.clone(), detail }).collect()
+    check(&h, 40).1.into_iter().map(|(signature, detail)| Failure { signature, case: v.clone(), detail, hash: 0 }).collect()
 }
